@@ -183,22 +183,25 @@ Definition case_ok (c : dcase) : Prop :=
   match model_roots c with
   | None => nograph_ok c /\ oracles_ok c
   | Some roots =>
+      (* [er]: the registry model's pipelines for the type, adjusted by what the nodes themselves did to the registry during
+         the Send (Run_Dispatch.eff_roots; = roots when they did nothing) *)
+      let er := eff_roots c roots in
       exists a,
-        (* the trace is an execution of the dispatch model from the pipelines the registry model gives ... *)
-        accepts (beh_of (d_trace c)) (e0_of (d_trace c)) (want_of c) (a0_of c roots) (d_trace c) a /\
-        reach (beh_of (d_trace c)) (e0_of (d_trace c)) roots (d_pre c) (a_st a) /\
+        (* the trace is an execution of the dispatch model from those pipelines ... *)
+        accepts (beh_of (d_trace c)) (e0_of (d_trace c)) (want_of c) (a0_of c er) (d_trace c) a /\
+        reach (beh_of (d_trace c)) (e0_of (d_trace c)) er (d_pre c) (a_st a) /\
         (* ... complete once everything is quiet ... *)
         (d_quiet c = true -> terminal (a_st a)) /\
         (* ... whose result, call log and return log are the observed ones; *)
         final_ok c (a_st a) (a_rets a) /\
         (* the implementation dispatches to the registry model's pipelines; nothing is invented; the oracles hold *)
-        d_snapshot c = Some roots /\ invented_ok c roots /\ oracles_ok c
+        d_snapshot c = Some roots /\ invented_ok c er /\ oracles_ok c
   end.
 
 Theorem run_case_nil_iff c : run_case c = [] <-> case_ok c.
 Proof.
   unfold run_case, case_ok. destruct (model_roots c) as [roots|] eqn:Er.
-  - destruct (run_trace (beh_of (d_trace c)) (e0_of (d_trace c)) (want_of c) (a0_of c roots) 0%N (d_trace c)) as [a [m|]] eqn:Et.
+  - cbv zeta. destruct (run_trace (beh_of (d_trace c)) (e0_of (d_trace c)) (want_of c) (a0_of c (eff_roots c roots)) 0%N (d_trace c)) as [a [m|]] eqn:Et.
     + split; [discriminate|]. intros [a' [Ha _]]. exfalso. exact (run_trace_some _ _ _ _ _ _ _ _ Et a' Ha).
     + rewrite map_nil_iff, !app_nil_iff, reg_of_nil, invented_of_nil, oracle_of_nil, final_checks_nil.
       unfold proto_end_of. rewrite ite_nil_iff'. split.
@@ -226,14 +229,14 @@ Print Assumptions mismatches_nil_iff.
 (* ---------- what the verdict gives, per property ---------- *)
 (* C01: an accepted Send whose context was never cancelled and that is quiet has invoked exactly — as a multiset — the
    sequential traversals of the pipelines the registry model has for the type; and that is what the nodes themselves logged *)
-Theorem verdict_calls_are_traversals c roots : case_ok c -> model_roots c = Some roots -> roots_ok roots ->
+Theorem verdict_calls_are_traversals c roots0 roots : case_ok c -> model_roots c = Some roots0 -> roots = eff_roots c roots0 -> roots_ok roots ->
   d_quiet c = true -> d_pre c = false ->
   exists a, reach (beh_of (d_trace c)) (e0_of (d_trace c)) roots false (a_st a) /\ terminal (a_st a) /\
             sortN (map (fun cl => enc (nobj (fst cl)) (snd cl)) (clog (a_st a))) = sortN (map (fun oc => enc (fst oc) (snd oc)) (d_nodecalls c)) /\
             (ctx (a_st a) = false ->
              Permutation.Permutation (clog (a_st a)) (flat_map (calls_of (beh_of (d_trace c)) (e0_of (d_trace c))) roots)).
 Proof.
-  intros Hok Hr Hroots Hq Hpre. unfold case_ok in Hok. rewrite Hr in Hok.
+  intros Hok Hr -> Hroots Hq Hpre. unfold case_ok in Hok. rewrite Hr in Hok. cbv zeta in Hok.
   destruct Hok as [a [_ [Hreach [Hterm [[_ [Hcalls _]] _]]]]]. rewrite Hpre in Hreach.
   exists a. split; [exact Hreach|]. split; [exact (Hterm Hq)|]. split; [exact Hcalls|].
   intros Hc. apply send_traverses_exactly; auto.
@@ -241,26 +244,26 @@ Qed.
 
 (* C02: the returned Status never holds more than one entry per pipeline of the registry model, and each entry is the final
    status of the sequential traversal of a pipeline of its own *)
-Theorem verdict_status_never_invented c roots : case_ok c -> model_roots c = Some roots -> roots_ok roots ->
+Theorem verdict_status_never_invented c roots0 roots : case_ok c -> model_roots c = Some roots0 -> roots = eff_roots c roots0 -> roots_ok roots ->
   exists a, reach (beh_of (d_trace c)) (e0_of (d_trace c)) roots (d_pre c) (a_st a) /\
             (forall acc b, result (a_st a) = Some (acc, b) ->
                (sortN (completes acc), sortN (complete_sinks acc), sortN (warnings acc)) = status_obs c) /\
             exists reported others, Permutation.Permutation (reported ++ others) roots /\
               Permutation.Permutation (collected (a_st a)) (flat_map (final_of (beh_of (d_trace c)) (e0_of (d_trace c))) reported).
 Proof.
-  intros Hok Hr Hroots. unfold case_ok in Hok. rewrite Hr in Hok.
+  intros Hok Hr -> Hroots. unfold case_ok in Hok. rewrite Hr in Hok. cbv zeta in Hok.
   destruct Hok as [a [_ [Hreach [_ [[Hres _] _]]]]]. exists a. split; [exact Hreach|]. split.
   - intros acc b H. exact (proj1 (Hres acc b H)).
   - eapply status_never_invented; eauto.
 Qed.
 
 (* C03: an accepted quiet Send has left nothing behind in the model either: wait group balanced, every invocation returned *)
-Theorem verdict_no_goroutine c roots : case_ok c -> model_roots c = Some roots -> roots_ok roots -> d_quiet c = true ->
+Theorem verdict_no_goroutine c roots0 roots : case_ok c -> model_roots c = Some roots0 -> roots = eff_roots c roots0 -> roots_ok roots -> d_quiet c = true ->
   d_leak c = false /\
   exists a, reach (beh_of (d_trace c)) (e0_of (d_trace c)) roots (d_pre c) (a_st a) /\
             wg (a_st a) = 0 /\ forall t, In t (tasks (a_st a)) -> exists f, tstage t = SDone f.
 Proof.
-  intros Hok Hr Hroots Hq. unfold case_ok in Hok. rewrite Hr in Hok.
+  intros Hok Hr -> Hroots Hq. unfold case_ok in Hok. rewrite Hr in Hok. cbv zeta in Hok.
   destruct Hok as [a [_ [Hreach [Hterm [_ [_ [_ [_ [_ [_ Hleak]]]]]]]]]]. split; [exact Hleak|].
   exists a. split; [exact Hreach|]. eapply terminal_no_goroutine_reach; eauto.
 Qed.
